@@ -1,5 +1,6 @@
 import Driver.Util
 import ClairModel.Model.JsonBlob
+import ClairModel.Model.OfflineV1
 
 /-
   Line protocol of the jsonblob model (property C16).
@@ -16,6 +17,15 @@ import ClairModel.Model.JsonBlob
     latest <v|e>                                  -> <r>
     init                                          -> true|false
     import <upd:fp,upd:fp,…>                      -> calls OfflineImport's loop makes on the written file
+
+    v1export <raw> <0|1> <order> <refs>           -> the files of the export, in zip order; with 1 the export is
+                                                     made against the previous one of this scenario
+    v1import <raw>                                -> the store calls Parse makes on the last export, then ok|err
+    v1header <hdr>                                -> true|false (does Parse accept this export header)
+
+  <raw>: updaters as the factories hand them out, `;` separated, each
+  `name:fp:flags:vulns:enrichments` (flags among V E F = parses vulnerabilities,
+  parses enrichments, Fetch fails; token lists `.` separated).
 
   <upd>, <fp> are opaque tokens (hex of the bytes); lists are comma separated,
   `-` is the empty list; a record is `tok:len`; a written line is
@@ -97,6 +107,56 @@ def out : Out → String
   | .err => "err"
   | .stored ok ls left => s!"{if ok then "ok" else "err"} lines={showLines ls} left={showNats left}"
 
+/-! zip-of-zips -/
+open ClairModel.OfflineV1 in
+def upd (s : String) : Option Upd :=
+  match s.splitOn ":" with
+  | [n, f, fl, vs, es] => do
+    let v ← (list vs ".").mapM (·.toNat?)
+    let e ← (list es ".").mapM (·.toNat?)
+    pure { name := n, fp := if f == "-" then "" else f, fetchErr := fl.contains 'F', hasV := fl.contains 'V',
+           hasE := fl.contains 'E', vulns := v, enrich := e }
+  | _ => none
+
+def dots (l : List Nat) : String := if l.isEmpty then "-" else ".".intercalate (l.map toString)
+def orDash (s : String) : String := if s.isEmpty then "-" else s
+
+open ClairModel.OfflineV1 in
+def showFile (f : ZFile) : String :=
+  match f.part with
+  | .dir => s!"{f.name}/=d"
+  | .fingerprint fp => s!"{f.name}/fingerprint={orDash fp}"
+  | .ref r => s!"{f.name}/ref={r}"
+  | .data v e => s!"{f.name}/data={dots v}|{dots e}"
+
+open ClairModel.OfflineV1 in
+def showCallV1 : Call → String
+  | .vulns r n f vs => s!"V/{r}/{n}/{orDash f}/{dots vs}"
+  | .enrich r n f es => s!"E/{r}/{n}/{orDash f}/{dots es}"
+
+structure DState where
+  w : World := World.init
+  zip : Option ClairModel.OfflineV1.Zip := none
+
+open ClairModel.OfflineV1 in
+def stepV1 (d : DState) : List String → Option (DState × String)
+  | ["v1export", raw, usePrev, order, refs] =>
+    match (list raw ";").mapM upd, nats refs with
+    | some us, some rs =>
+      let prev := if usePrev == "1" then d.zip else none
+      match exportV1 prev us (list order) rs with
+      | none => some (d, "bad-order")
+      | some z => some ({ d with zip := some z }, ",".intercalate ("config.json" :: z.map showFile))
+    | _, _ => some (d, "bad-op")
+  | ["v1import", raw] =>
+    match (list raw ";").mapM upd, d.zip with
+    | some us, some z =>
+      let (cs, ok) := importV1 us z
+      some (d, " ".intercalate (cs.map showCallV1 ++ [if ok then "ok" else "err"]))
+    | _, _ => some (d, "bad-op")
+  | ["v1header", h] => some (d, toString (parseAccepts (if h == "-" then "" else h)))
+  | _ => none
+
 def stepLine (w : World) (l : String) : World × String :=
   if l == "reset" then (World.init, "ok") else
   match Driver.words l with
@@ -137,5 +197,10 @@ def stepLine (w : World) (l : String) : World × String :=
 
 end Driver.C16
 
+def Driver.C16.stepAll (d : Driver.C16.DState) (l : String) : Driver.C16.DState × String :=
+  match Driver.C16.stepV1 d (Driver.words l) with
+  | some r => r
+  | none => let (w', o) := Driver.C16.stepLine d.w l; ({ d with w := w' }, o)
+
 def main : IO Unit := do
-  Driver.foldLines (← IO.getStdin) (← IO.getStdout) ClairModel.JsonBlob.World.init Driver.C16.stepLine
+  Driver.foldLines (← IO.getStdin) (← IO.getStdout) ({} : Driver.C16.DState) Driver.C16.stepAll
